@@ -8,8 +8,8 @@ from typing import Any, Iterator
 from jinja2 import nodes
 
 from .. import tplq
-from ..astutil import Locals, constructs_error, norm, short, where
-from ..cfg import walk_own
+from ..astutil import Locals, call_name, constructs_error, error_names, norm, returns_error, short, where
+from ..cfg import CFG, ENTRY, own_exprs, walk_own
 from ..core import PKG, Report
 from ..jinja_interp import expr_text
 from .siblings import Path as SimPath
@@ -19,10 +19,15 @@ LEVEL = ("sibling / guard rules: (1) every get_type_string implementation evalua
          "no_optional and not required` (path simulation over the boolean atoms, all overrides); to_string emits a default iff the "
          "truth table says so; (2) every transform/construct macro of every property template handles Unset exactly on the "
          "non-required arm, and a guard may be skipped only under `property.required` (truth tables over the Jinja guard atoms, macro "
-         "calls within a template followed); (3) model I/O: unconditional key writes imply `required`, optional pops carry the UNSET "
-         "default (loop filters count as guards); (4) null: union parser, handle_nullable adds null on every path of every schema "
-         "shape, enum builder facts; (5) query filter tests identity with UNSET/None, optional path parameters rejected on every "
-         "path; (6) mandatory attributes are declared before defaulted ones; (7) required/default are never changed in place.")
+         "calls followed into the macro's body, also into constant-named imported templates; constants, comparisons of truth values, "
+         "loops over literal sequences and selectattr/rejectattr chains are read as the decisions they are); (3) model I/O: "
+         "unconditional key writes imply `required`, optional pops carry the UNSET default (loop filters count as guards); (4) null: "
+         "union parser, handle_nullable adds null on every path of every schema shape, enum builder facts; (5) query filter tests "
+         "identity with UNSET/None, cookie and header writes outside the block of an UNSET test imply `required`, optional path "
+         "parameters rejected on every path; (6) mandatory attributes are declared before defaulted ones (passes in execution order); "
+         "(7) required/default are never changed in place; (8) every function that hands on the requiredness of the declaration it was "
+         "given does so on every path to a successful return (statement CFG; keyword, position, keyword dictionary, alias local, or "
+         "the declaration itself handed to a forwarder).")
 
 TEMPLATE_DIR = "property_templates/"
 
@@ -30,6 +35,8 @@ TEMPLATE_DIR = "property_templates/"
 def run(rep: Report, ctx: Any) -> str:
     ix = ctx.py
     jx = ctx.jinja
+    BOOL_ATTRS.clear()
+    BOOL_ATTRS.update(_bool_attrs(ix))
     rep.rule("R10.1", "type strings mention Unset iff (not no_optional and not required), in every override; to_string emits "
                       "`= UNSET` iff not required and no default, and nothing iff required without default")
     rep.rule("R10.2", "every transform/transform_multipart/transform_multipart_body/construct_template macro: the arm emitted "
@@ -42,9 +49,14 @@ def run(rep: Report, ctx: Any) -> str:
                       "mandatory one")
     rep.rule("R10.7", "`required` and `default` of a property are never changed in place (attribute store, setattr, object.__setattr__): "
                       "property objects are shared between models and endpoints, a changed value needs a copy")
+    rep.rule("R10.8", "a function that passes on the requiredness of the declaration it was given (its parameter `required`, or "
+                      "`<parameter>.required`) does so on every path: no return of a value that is not an error is reached without "
+                      "a call / keyword dictionary that receives it - a result taken from a cache or registry, or built with a "
+                      "constant, carries some other declaration's requiredness")
     rep.rule("R10.4", "the union parser returns None before trying any member exactly when None is among its JSON types; "
                       "handle_nullable covers type scalar / type list / oneOf / anyOf / allOf")
-    rep.rule("R10.5", "query parameters are dropped only by identity with UNSET or None; optional cookies/headers are guarded")
+    rep.rule("R10.5", "query parameters are dropped only by identity with UNSET or None; a cookie or header is written outside the block "
+                      "of a generated `if` that tests for UNSET only when the parameter is required, and inside one only when it is not")
 
     # ---- R10.1 ----------------------------------------------------------------------------------------------------
     pe = _Mentions(ix)
@@ -90,27 +102,36 @@ def run(rep: Report, ctx: Any) -> str:
                 continue
             n_macros += 1
             tests: list[nodes.Node] = []
-            frs = list(_frags(m.body, ti, tests=tests))
+            frs = list(_frags(m.body, ti, jx, tests=tests, sets=True))
+            tev2 = _TplEval(frs)
             key = f"{tn}::{mn}"
             req_atom = "property.required"
             texts_req: list[str] = []
             texts_opt: list[str] = []
             unguarded_unset = []
-            for fr in frs:
-                if fr.kind != "data":
-                    continue
-                names = tplq.guard_atoms(fr)
-                if req_atom in names:
-                    on_req = any(tplq.guard_holds(fr, e) for e in tplq.assignments(names) if e[req_atom])
-                    on_opt = any(tplq.guard_holds(fr, e) for e in tplq.assignments(names) if not e[req_atom])
+            for i_fr, fr in enumerate(frs):
+                # what the fragment contributes to the generated code: template text as it stands; of an output expression the
+                # string constants it evaluates (a conditional expression selects one arm, a `set` variable reads as its
+                # definition) - `{% if c %}text{% endif %}` and `{{ "text" if c else "" }}` are the same decision
+                if fr.kind == "data":
+                    names = _guard_atoms(fr)
+                elif fr.kind == "expr":
+                    names = list(dict.fromkeys(_guard_atoms(fr) + tev2.atoms(fr.expr, i_fr)))
                 else:
-                    on_req = on_opt = True
-                if on_req:
-                    texts_req.append(fr.text)
-                if on_opt:
-                    texts_opt.append(fr.text)
-                if on_req and re.search(r"\bUNSET\b|\bUnset\b", fr.text):
-                    unguarded_unset.append((fr.line, fr.text.strip()[:60]))
+                    continue
+                rep.require(len(names) <= 14, f"a fragment of {key} that depends on at most 14 conditions (line {fr.line})")
+                for env in tplq.assignments(names):
+                    if not _guard_holds(fr, env):
+                        continue
+                    txt = fr.text if fr.kind == "data" else "".join(tev2.consts(fr.expr, env, i_fr))
+                    on_req = env[req_atom] if req_atom in names else True
+                    on_opt = not env[req_atom] if req_atom in names else True
+                    if on_req and txt not in texts_req[-1:]:
+                        texts_req.append(txt)
+                        if re.search(r"\bUNSET\b|\bUnset\b", txt):
+                            unguarded_unset.append((fr.line, txt.strip()[:60]))
+                    if on_opt and txt not in texts_opt[-1:]:
+                        texts_opt.append(txt)
             rep.check(not unguarded_unset, "R10.2", key + "::required-arm",
                       f"text emitted for required properties mentions Unset/UNSET: {unguarded_unset[:2]}",
                       where=f"{PKG}/templates/{tn}:{m.lineno}", lhs=unguarded_unset[:2], rhs="no Unset handling when required")
@@ -127,13 +148,13 @@ def run(rep: Report, ctx: Any) -> str:
                           lhs=opt.strip()[:100], rhs="isinstance(<source>, Unset) guard")
             # a guard is skipped only under property.required: every If that decides between the two arms tests exactly that atom
             for test in tests:
-                at = tplq.atoms(test)
+                at = _atoms(test)
                 if req_atom in at and len(at) > 1:
                     # the required arm must imply property.required
                     for env in tplq.assignments(at):
-                        val = tplq.evaluate(test, env)
+                        val = _eval(test, env)
                         # polarity: which arm is "no guard"? the arm taken when property.required is True and all other atoms False
-                        base = tplq.evaluate(test, {a: (a == req_atom) for a in at})
+                        base = _eval(test, {a: (a == req_atom) for a in at})
                         if val == base and not env[req_atom]:
                             rep.fail("R10.2", key + f"::guard-skipped({expr_text(test)[:50]})",
                                      f"the Unset guard is skipped under `{expr_text(test)}` although the property is not required "
@@ -148,7 +169,8 @@ def run(rep: Report, ctx: Any) -> str:
     td = mt.macros.get("_to_dict")
     rep.require(td, "_to_dict macro")
     n_w = 0
-    for fr in _frags(td.body, mt):
+    tdf = list(_frags(td.body, mt, jx))
+    for i_fr, fr in enumerate(tdf):
         if fr.kind != "expr":
             continue
         # "<name>": <python_name>   inside field_dict.update({...})  and  field_dict["<name>"] = <python_name>
@@ -156,17 +178,15 @@ def run(rep: Report, ctx: Any) -> str:
         if fr.loops and fr.text == f"{fr.loops[-1]}[*].name":
             pv = f"{fr.loops[-1]}[*]"
             n_w += 1
-            names = tplq.guard_atoms(fr)
-            # is this write under a python-level `if ... is not UNSET:` ?  look at the preceding data fragment
-            prev = _prev_data(td.body, fr.node)
-            py_guarded = prev is not None and _tests_unset(prev)
+            # is this write under a python-level `if ... is not UNSET:` ?
+            py_guarded = _under_unset_test(tdf, i_fr)
             if not py_guarded:
-                ok = tplq.implies(fr, f"{pv}.required", True)
+                ok = _implies(fr, f"{pv}.required", True)
                 rep.check(ok, "R10.3", f"model.py.jinja::_to_dict::unconditional-write#{n_w}",
                           "a key is written without an `is not UNSET` test under a condition that does not imply property.required",
                           where=f"{PKG}/templates/model.py.jinja:{fr.line}", lhs=[g for g, _ in fr.guards], rhs="implies property.required")
             else:
-                ok = tplq.implies(fr, f"{pv}.required", False)
+                ok = _implies(fr, f"{pv}.required", False)
                 rep.check(ok, "R10.3", f"model.py.jinja::_to_dict::guarded-write#{n_w}",
                           "the UNSET-guarded write is not restricted to non-required properties (a required key could be omitted)",
                           where=f"{PKG}/templates/model.py.jinja:{fr.line}", lhs=[g for g, _ in fr.guards], rhs="implies not property.required")
@@ -177,7 +197,7 @@ def run(rep: Report, ctx: Any) -> str:
     # by the conditions it sits under AND the conditional expressions inside it (`'")' if required else '", UNSET)'` is the same
     # decision as an if/else around two `set`s): every valuation of those conditions gives one *form* of the pop, and the form
     # with the UNSET default must be the one of the non-required properties, whatever construct takes the decision.
-    allfr = list(_frags(mt.tree.body, mt, sets=True))
+    allfr = list(_frags(mt.tree.body, mt, jx, sets=True))
     tev = _TplEval(allfr)
     forms: list[tuple[int, bool, bool, tplq.Frag, str]] = []   # (site, property.required, UNSET default, fragment, text)
     named: dict[int, bool] = {}
@@ -186,11 +206,11 @@ def run(rep: Report, ctx: Any) -> str:
             continue
         pv = f"{fr.loops[-1]}[*]"
         rq = f"{pv}.required"
-        names = list(dict.fromkeys(tplq.guard_atoms(fr) + tev.atoms(fr.expr, i) + [rq]))
+        names = list(dict.fromkeys(_guard_atoms(fr) + tev.atoms(fr.expr, i) + [rq]))
         rep.require(len(names) <= 12, f"a pop expression of from_dict that depends on at most 12 conditions (line {fr.line})")
         named[i] = f"{pv}.name" in tev.reads(fr.expr, i)
         for env in tplq.assignments(names):
-            if tplq.guard_holds(fr, env):
+            if _guard_holds(fr, env):
                 txt = "".join(tev.consts(fr.expr, env, i))
                 forms.append((i, env[rq], bool(re.search(r"\bUNSET\b", txt)), fr, txt))
     for required, kind in ((True, "required"), (False, "optional")):
@@ -210,41 +230,62 @@ def run(rep: Report, ctx: Any) -> str:
     # the class body declares its attributes in passes (loops); a declaration is mandatory when the property is required and has no
     # default (to_string emits no `= ...`, R10.1).  Whatever the passes iterate over, their guards must make sure that no
     # declaration that carries a default can come before a mandatory one.
-    passes: list[tuple[Any, tplq.Frag]] = []
-    for fr in _frags(mt.tree.body, mt):
-        if fr.kind == "expr" and fr.loops and fr.text == f"{fr.loops[-1]}[*].to_string()":
-            k_ = (fr.loops, tuple(id(g) for g in fr.guard_nodes if f"{fr.loops[-1]}[*]." in expr_text(g)))
-            if not any(k_ == q for q, _ in passes):
-                passes.append((k_, fr))
+    # A pass is one execution of a loop whose body declares attributes (`<loop variable>.to_string()`): a loop over a literal
+    # sequence is the sequence of its rounds, a macro that holds the loop is one pass per call.
+    decls = [fr for fr in _frags(mt.tree.body, mt, jx) if fr.kind == "expr" and fr.loops and fr.text == f"{fr.loops[-1]}[*].to_string()"]
+    passes: list[list[tplq.Frag]] = []
+    for fr in decls:
+        mine_ = next((p_ for p_ in passes if p_[0].insts[-1] is fr.insts[-1]), None)
+        if mine_ is None:
+            passes.append([fr])
+        else:
+            mine_.append(fr)
     rep.floor("declaration_passes", len(passes), 1)
+
+    def kind_atoms(fr: tplq.Frag) -> tuple[str, str]:
+        pv_ = f"{fr.loops[-1]}[*]"
+        return f"{pv_}.default is none", f"{pv_}.required"
+
+    def emitting(fr: tplq.Frag) -> list[dict[str, bool]]:
+        """the valuations of the conditions around a declaration under which it is emitted"""
+        names_ = list(dict.fromkeys(_guard_atoms(fr) + list(kind_atoms(fr))))
+        rep.require(len(names_) <= 14, f"an attribute declaration that depends on at most 14 conditions (line {fr.line})")
+        return [e for e in tplq.assignments(names_) if _guard_holds(fr, e)]
+
     can: list[tuple[bool, bool]] = []
-    for i, (_, fr) in enumerate(passes):
-        pv = f"{fr.loops[-1]}[*]"
-        dn, rq = f"{pv}.default is none", f"{pv}.required"
-        names = list(dict.fromkeys(tplq.guard_atoms(fr) + [dn, rq]))
-        envs = [e for e in tplq.assignments(names) if tplq.guard_holds(fr, e)]
-        mand = any(e[dn] and e[rq] for e in envs)
-        dflt = any(not (e[dn] and e[rq]) for e in envs)
+    for i, frs_ in enumerate(passes):
+        mand = dflt = False
+        for fr in frs_:
+            dn, rq = kind_atoms(fr)
+            envs = emitting(fr)
+            mand = mand or any(e[dn] and e[rq] for e in envs)
+            dflt = dflt or any(not (e[dn] and e[rq]) for e in envs)
         can.append((mand, dflt))
         rep.check(not (mand and dflt), "R10.6", f"model.py.jinja::declarations::pass#{i + 1}",
                   "one pass over the properties declares mandatory attributes and attributes with a default in document order (a "
-                  "required property with a default may precede one without)", where=f"{PKG}/templates/model.py.jinja:{fr.line}",
-                  lhs=[g for g, _ in fr.guards], rhs="guard decides `default is none and required`")
-    # when all passes run over the same collection, each property is declared by exactly one of them
-    same_iter = len({fr.loops[-1] for _, fr in passes}) == 1
-    counts = {}
-    for d_ in (False, True):
-        for r_ in (False, True):
-            n_ = 0
-            for _, fr in passes:
-                pv = f"{fr.loops[-1]}[*]"
-                dn, rq = f"{pv}.default is none", f"{pv}.required"
-                names = list(dict.fromkeys(tplq.guard_atoms(fr) + [dn, rq]))
-                n_ += any(tplq.guard_holds(fr, e) for e in tplq.assignments(names) if e[dn] == d_ and e[rq] == r_)
-            counts[f"default-none={d_},required={r_}"] = n_
-    rep.check(not same_iter or all(v == 1 for v in counts.values()), "R10.6", "model.py.jinja::declarations::each-once",
+                  "required property with a default may precede one without)", where=f"{PKG}/templates/model.py.jinja:{frs_[0].line}",
+                  lhs=[[g for g, _ in fr.guards] for fr in frs_][:2], rhs="guard decides `default is none and required`")
+    # when all passes run over the same collection, each property is declared exactly once, whatever else the template asks
+    same_iter = len({fr.loops[-1] for fr in decls}) == 1
+    counts: dict[str, list[int]] = {}
+    if same_iter and decls:
+        names = list(dict.fromkeys([a for fr in decls for a in _guard_atoms(fr)] + list(kind_atoms(decls[0]))))
+        rep.require(len(names) <= 14, "attribute declarations that depend on at most 14 conditions")
+        dn, rq = kind_atoms(decls[0])
+        for env in tplq.assignments(names):
+            n_ = sum(_guard_holds(fr, env) for fr in decls)
+            seen_ = counts.setdefault(f"default-none={env[dn]},required={env[rq]}", [])
+            if n_ not in seen_:
+                seen_.append(n_)
+    rep.check(not same_iter or all(v == [1] for v in counts.values()), "R10.6", "model.py.jinja::declarations::each-once",
               f"a property is declared by no pass or by several: {counts}", where=f"{PKG}/templates/model.py.jinja", lhs=counts, rhs="1 each")
-    bad_order = [(i + 1, j + 1) for i in range(len(can)) for j in range(i + 1, len(can)) if can[i][1] and can[j][0]]
+
+    def before(i: int, j: int) -> bool:
+        """pass i can run before pass j: it comes first, or both sit in a loop that runs them again"""
+        a_, b_ = passes[i][0].insts[:-1], passes[j][0].insts[:-1]
+        return i < j or (i != j and any(x is y for x in a_ for y in b_))
+
+    bad_order = [(i + 1, j + 1) for i in range(len(can)) for j in range(len(can)) if before(i, j) and can[i][1] and can[j][0]]
     rep.check(not bad_order, "R10.6", "model.py.jinja::declarations::order", "a pass that can declare an attribute with a default comes before "
               f"a pass that can declare a mandatory attribute: passes {bad_order}", where=f"{PKG}/templates/model.py.jinja", lhs=bad_order, rhs=[])
 
@@ -279,17 +320,50 @@ def run(rep: Report, ctx: Any) -> str:
     rep.floor("attribute_stores_scanned", n_stores, 32)
     rep.ok("R10.7", "package::no-in-place-requiredness", n_stores, "no store to .required / .default")
 
+    # ---- R10.8 requiredness is forwarded on every path -------------------------------------------------------------------------
+    # R10.7 says an object's requiredness is given when it is made; this says that what is given is the declaration's.  The
+    # builders (property_from_data and its helpers, every `build`, parameter_from_data, ...) are found by what they do: somewhere
+    # they hand `required` / `<parameter>.required` on.  Each of them must do so before every successful return - by keyword, by
+    # position into a parameter called `required`, through a keyword dictionary, through a local that holds nothing else, or by
+    # handing the declaration itself to a function that forwards its `.required`.
+    fw = _Forwarding(ix)
+    n_fw = 0
+    for f in ix.all_functions:
+        if not fw.sources(f):
+            continue
+        n_fw += 1
+        cfg_ = CFG(f.node)
+        errs = error_names(f.node)
+        bad_returns = []
+        for r in cfg_.stmts():
+            if not isinstance(r, ast.Return) or r.value is None or (isinstance(r.value, ast.Constant) and r.value.value is None):
+                continue
+            if returns_error(r, errs) or fw.in_stmt(f, r):
+                continue
+            if not cfg_.every_path_passes(ENTRY, r, lambda n_: isinstance(n_, ast.stmt) and fw.in_stmt(f, n_)):
+                bad_returns.append(r)
+        rep.check(not bad_returns, "R10.8", f"{short(f)}::requiredness-forwarded",
+                  f"a path returns `{norm(bad_returns[0].value)[:60] if bad_returns else ''}` without having passed on the requiredness of the "
+                  f"declaration ({', '.join(sorted(fw.sources(f)))}): the result carries whatever requiredness it was made with elsewhere",
+                  where(f, bad_returns[0] if bad_returns else f.node), lhs=[f"line {r.lineno}: {norm(r)[:70]}" for r in bad_returns][:3],
+                  rhs="required=<the declaration's> on every path to a successful return")
+    rep.floor("requiredness_forwarders", n_fw, 10)
+
     # ---- R10.4 ---------------------------------------------------------------------------------------------------------
     ut = jx.templates.get(TEMPLATE_DIR + "union_property.py.jinja")
     rep.require(ut, "union template")
     cons = ut.macros.get("construct")
     rep.require(cons, "union construct")
-    frs = list(tplq.frags(cons.body))
-    none_fr = [f for f in frs if f.kind == "data" and "if data is None" in f.text]
-    none_atoms = [a for f in none_fr[:1] for a in tplq.guard_atoms(f) if a.startswith("'None' in ") and "type_strings" in a]
-    ok = bool(none_fr) and len(none_atoms) == 1 and tplq.implies(none_fr[0], none_atoms[0], True) and "return data" in none_fr[0].text
-    first_loop = next((f for f in frs if f.loops), None)
-    ok = ok and first_loop is not None and none_fr[0].line < first_loop.line
+    # (in the order of emission, macros the parser is assembled from included)
+    frs = list(_frags(cons.body, ut, jx))
+    none_at = [i for i, f in enumerate(frs) if f.kind == "data" and re.search(r"\bif data is None:\s*\n\s*return (data|None)\b", f.text)]
+    none_fr = [frs[i] for i in none_at]
+    none_atoms = [a for f in none_fr[:1] for a in _guard_atoms(f) if a.startswith("'None' in ") and "type_strings" in a]
+    ok = bool(none_fr) and len(none_atoms) == 1 and _implies(none_fr[0], none_atoms[0], True)
+    # ... and whenever None is among them, whatever else is asked on the way
+    ok = ok and all(_guard_holds(none_fr[0], e) for e in tplq.assignments(_guard_atoms(none_fr[0])) if e[none_atoms[0]])
+    first_loop = next((i for i, f in enumerate(frs) if f.loops), None)
+    ok = ok and first_loop is not None and none_at[0] < first_loop
     rep.check(ok, "R10.4", "union_property.py.jinja::construct::none-short-circuit",
               "the union parser does not return None (before trying members) exactly when None is among its JSON types",
               where=f"{PKG}/templates/{ut.name}:{cons.lineno}", lhs=[f.guards for f in none_fr][:1], rhs="guarded by 'None' in type strings, before the member loop")
@@ -323,60 +397,56 @@ def run(rep: Report, ctx: Any) -> str:
     rep.require(em, "endpoint_macros.py.jinja")
     qp = em.macros.get("query_params")
     rep.require(qp, "query_params macro")
-    # the statement of the generated code that rebuilds `params` from its own items (whatever its loop variables are called)
+    # the statement of the generated code that drops entries of `params`: a comprehension that rebuilds it from its own items, or
+    # a loop over its items that deletes some (whatever the loop variables are called).  What it keeps, as a function of
+    # "the value is UNSET" / "the value is None", must be: exactly the values that are neither.
     filt = []
     line = ""
-    comp = None
-    for f in tplq.frags(qp.body):
+    keeps: "list[bool | None] | None" = None
+    for f in _frags(qp.body, em, jx):
         if f.kind != "data":
             continue
-        for l in f.text.splitlines():
-            try:
-                tree = ast.parse(l.strip())
-            except SyntaxError:
-                continue
+        for tree in _py_blocks(f.text):
             for n in ast.walk(tree):
-                if isinstance(n, (ast.DictComp, ast.GeneratorExp, ast.ListComp)) and len(n.generators) == 1 and \
-                        norm(n.generators[0].iter) == "params.items()":
-                    filt, line, comp = [f], l.strip(), n
-    rep.require(filt and comp is not None, "query filter comprehension")
-    ok = False
-    tgt = comp.generators[0].target
-    val = tgt.elts[1].id if isinstance(tgt, ast.Tuple) and len(tgt.elts) == 2 and isinstance(tgt.elts[1], ast.Name) else None
-    conds = comp.generators[0].ifs
-    seen = set()
-    ok = bool(conds) and val is not None
-    for c in conds:
-        parts = c.values if isinstance(c, ast.BoolOp) and isinstance(c.op, ast.And) else [c]
-        for p in parts:
-            if isinstance(p, ast.Compare) and len(p.ops) == 1 and isinstance(p.ops[0], ast.IsNot) and isinstance(p.left, ast.Name) \
-                    and p.left.id == val:
-                seen.add(norm(p.comparators[0]))
-            else:
-                ok = False
-    ok = ok and seen == {"UNSET", "None"}
+                got = _params_filter(n, "params")
+                if got is not None:
+                    filt, line, keeps = [f], norm(n).splitlines()[0], got
+    rep.require(filt and keeps is not None, "the statement of query_params that filters params by value")
+    # (UNSET, None) = (False, False) is kept, (True, False) and (False, True) are dropped
+    ok = keeps == [True, False, False]
     rep.check(ok, "R10.5", "endpoint_macros.py.jinja::query_params::filter",
               "query parameters are filtered by something other than identity with UNSET / None (a present falsy value would be dropped)",
               where=f"{PKG}/templates/{em.name}:{filt[0].line}", lhs=line, rhs="if v is not UNSET and v is not None")
     rep.check(not filt[0].guards or all(g == "endpoint.query_parameters" for g, _ in filt[0].guards), "R10.5",
               "endpoint_macros.py.jinja::query_params::filter-unconditional", "the filter is not emitted whenever params is",
               where=f"{PKG}/templates/{em.name}:{filt[0].line}", lhs=filt[0].guards, rhs="same guard as `params = {}`")
-    ck = em.macros.get("cookie_params")
-    rep.require(ck, "cookie_params macro")
-    n_ck = 0
-    for fr in _frags(ck.body, em):
-        if fr.kind == "expr" and fr.loops and fr.text == f"{fr.loops[-1]}[*].name":
-            n_ck += 1
+    # cookies and headers: the generated code collects them in a dict (`cookies[...] = `, `headers[...] = `).  Wherever the loop
+    # over the parameters emits such a write - as template text, through a `set` variable or inside a macro it calls - the write
+    # of an optional parameter sits in the block of a generated `if` that tests for the UNSET sentinel; a write outside such a
+    # block is emitted for required parameters only
+    for mname, label, target in (("cookie_params", "cookie", "cookies"), ("header_params", "header", "headers")):
+        pm = em.macros.get(mname)
+        rep.require(pm, f"{mname} macro")
+        pfr = list(_frags(pm.body, em, jx, sets=True))
+        ptev = _TplEval(pfr)
+        writes_to = re.compile(r"\b" + target + r"\[")
+        n_pw = 0
+        for i_fr, fr in enumerate(pfr):
+            if not fr.loops or fr.kind == "set":
+                continue
+            offsets = [m_.start() for m_ in writes_to.finditer(fr.text)] if fr.kind == "data" else \
+                [0] if writes_to.search(ptev.reads(fr.expr, i_fr)) else []
             req = f"{fr.loops[-1]}[*].required"
-            prev = _prev_data(ck.body, fr.node) or ""
-            if _tests_unset(prev):
-                rep.check(tplq.implies(fr, req, False), "R10.5", "cookie_params::guarded", "guard misplaced",
-                          where=f"{PKG}/templates/{em.name}:{fr.line}")
-            else:
-                rep.check(tplq.implies(fr, req, True), "R10.5", "cookie_params::unguarded",
-                          "an optional cookie is sent without an UNSET test", where=f"{PKG}/templates/{em.name}:{fr.line}",
-                          lhs=fr.guards, rhs="implies parameter.required")
-    rep.floor("cookie_writes", n_ck, 1)
+            for off in offsets:
+                n_pw += 1
+                if _under_unset_test(pfr, i_fr, off):
+                    rep.check(_implies(fr, req, False), "R10.5", f"{mname}::guarded", "guard misplaced",
+                              where=f"{PKG}/templates/{em.name}:{fr.line}")
+                else:
+                    rep.check(_implies(fr, req, True), "R10.5", f"{mname}::unguarded",
+                              f"an optional {label} is sent without an UNSET test", where=f"{PKG}/templates/{em.name}:{fr.line}",
+                              lhs=fr.guards, rhs="implies parameter.required")
+        rep.floor(f"{label}_writes", n_pw, 1)
     # path parameters must be required
     vl = proto.methods.get("validate_location")
     rep.require(vl, "validate_location")
@@ -401,6 +471,81 @@ def run(rep: Report, ctx: Any) -> str:
     rep.not_decided.append("run-time values of attributes; nullable without type or composition falls through handle_nullable (observation)")
     rep.observe("Schema.handle_nullable: `nullable: true` on a schema without type/oneOf/anyOf/allOf is ignored")
     return LEVEL
+
+
+def _py_blocks(text: str) -> Iterator[ast.Module]:
+    """the statements of generated Python code that a piece of template text contains completely: for every line, the line together
+    with the deeper indented lines that follow it, if that parses"""
+    import textwrap
+
+    lines = text.split("\n")
+    ind = lambda l: len(l) - len(l.lstrip(" "))
+    for i, l in enumerate(lines):
+        if not l.strip():
+            continue
+        j = i + 1
+        while j < len(lines) and (not lines[j].strip() or ind(lines[j]) > ind(l)):
+            j += 1
+        try:
+            yield ast.parse(textwrap.dedent("\n".join(lines[i:j])))
+        except SyntaxError:
+            continue
+
+
+def _params_filter(n: ast.AST, var: str) -> "list[bool | None] | None":
+    """n drops entries of the dict `var` by their value: [is a value kept that is neither UNSET nor None, one that is UNSET, one
+    that is None] (None: the condition asks something else, e.g. truthiness); None if n is no such statement"""
+    def items_of(e: ast.expr) -> bool:
+        while isinstance(e, ast.Call) and norm(e.func) in ("list", "tuple") and len(e.args) == 1:
+            e = e.args[0]
+        return isinstance(e, ast.Call) and isinstance(e.func, ast.Attribute) and e.func.attr == "items" and not e.args \
+            and norm(e.func.value) in (var, f"{var}.copy()", f"dict({var})")
+
+    def value_var(t: ast.expr) -> "str | None":
+        return t.elts[1].id if isinstance(t, ast.Tuple) and len(t.elts) == 2 and isinstance(t.elts[1], ast.Name) else None
+
+    def ev(e: ast.expr, v: str, unset: bool, none: bool) -> "bool | None":
+        if isinstance(e, ast.BoolOp):
+            xs = [ev(x, v, unset, none) for x in e.values]
+            if isinstance(e.op, ast.And):
+                return False if any(x is False for x in xs) else None if any(x is None for x in xs) else True
+            return True if any(x is True for x in xs) else None if any(x is None for x in xs) else False
+        if isinstance(e, ast.UnaryOp) and isinstance(e.op, ast.Not):
+            x = ev(e.operand, v, unset, none)
+            return None if x is None else not x
+        if isinstance(e, ast.Compare) and len(e.ops) == 1 and isinstance(e.ops[0], (ast.Is, ast.IsNot)) and norm(e.left) == v \
+                and norm(e.comparators[0]) in ("UNSET", "None"):
+            x = unset if norm(e.comparators[0]) == "UNSET" else none
+            return x if isinstance(e.ops[0], ast.Is) else not x
+        if isinstance(e, ast.Call) and norm(e.func) == "isinstance" and len(e.args) == 2 and norm(e.args[0]) == v and norm(e.args[1]) == "Unset":
+            return unset
+        return None
+
+    cases = [(False, False), (True, False), (False, True)]
+    if isinstance(n, (ast.DictComp, ast.GeneratorExp, ast.ListComp)) and len(n.generators) == 1 and items_of(n.generators[0].iter):
+        g = n.generators[0]
+        v = value_var(g.target)
+        if v is None:
+            return None
+        if not g.ifs:
+            return None
+        cond: ast.expr = g.ifs[0] if len(g.ifs) == 1 else ast.BoolOp(op=ast.And(), values=list(g.ifs))
+        return [ev(cond, v, u, nn) for u, nn in cases]
+    if isinstance(n, ast.For) and items_of(n.iter) and value_var(n.target) is not None and len(n.body) == 1 and isinstance(n.body[0], ast.If) \
+            and not n.body[0].orelse:
+        k, v = n.target.elts[0], value_var(n.target)   # type: ignore[attr-defined]
+        body = n.body[0].body
+        deletes = len(body) == 1 and (
+            (isinstance(body[0], ast.Delete) and [norm(t) for t in body[0].targets] == [f"{var}[{norm(k)}]"])
+            or (isinstance(body[0], ast.Expr) and isinstance(body[0].value, ast.Call) and norm(body[0].value.func) == f"{var}.pop"
+                and body[0].value.args and norm(body[0].value.args[0]) == norm(k)))
+        if deletes:
+            out: "list[bool | None]" = []
+            for u, nn in cases:
+                x = ev(n.body[0].test, v, u, nn)
+                out.append(None if x is None else not x)
+            return out
+    return None
 
 
 def _tests_unset(text: str) -> bool:
@@ -449,31 +594,27 @@ def _adds_null(p: SimPath) -> bool:
     return any(any(isinstance(n, ast.Attribute) and n.attr == "NULL" for n in walk_own(s)) for s in p.stmts())
 
 
-def _prev_data(body: list[nodes.Node], target: Any) -> str | None:
-    """the template text emitted right before `target` (same Output node or the closest preceding one)"""
-    last: list[str | None] = [None]
-    found: list[str | None] = [None]
+def _code_before(frs: list[tplq.Frag], i: int, offset: int = 0) -> tuple[str, str]:
+    """(the last complete non-blank line, the beginning of the current line) of the generated code at the point where fragment
+    i is emitted (`offset` characters into it, for template text), read backwards from the fragments emitted before it; an
+    output expression reads HOLE"""
+    out = frs[i].text[:offset] if frs[i].kind == "data" else ""
+    for fr in reversed(frs[:i]):
+        if sum(1 for l in out.split("\n")[:-1] if l.strip()) >= 2:
+            break
+        if fr.kind == "set":
+            continue
+        out = (fr.text if fr.kind == "data" else HOLE) + out
+    lines = out.split("\n")
+    return next((l for l in reversed(lines[:-1]) if l.strip()), ""), lines[-1]
 
-    def rec(ns: list[nodes.Node]) -> bool:
-        for n in ns:
-            if isinstance(n, nodes.Output):
-                for c in n.nodes:
-                    if c is target:
-                        found[0] = last[0]
-                        return True
-                    if isinstance(c, nodes.TemplateData) and c.data.strip():
-                        last[0] = c.data
-            for fld in ("body", "else_"):
-                sub = getattr(n, fld, None)
-                if isinstance(sub, list) and rec(sub):
-                    return True
-            for el in getattr(n, "elif_", []) or []:
-                if rec(el.body):
-                    return True
-        return False
 
-    rec(body)
-    return found[0]
+def _under_unset_test(frs: list[tplq.Frag], i: int, offset: int = 0) -> bool:
+    """at this point the generated code starts the first statement of the block of an `if` that runs only for a value that is not
+    the UNSET sentinel: the line before is such an `if` and the current line is indented deeper"""
+    prev, cur = _code_before(frs, i, offset)
+    ind = lambda l: len(l) - len(l.lstrip(" "))
+    return bool(re.match(r"\s*(el)?if\b.*:\s*$", prev)) and _tests_unset(prev) and ind(cur) > ind(prev)
 
 
 def _clone(n: Any, binding: dict[str, Any]) -> Any:
@@ -489,22 +630,132 @@ def _clone(n: Any, binding: dict[str, Any]) -> Any:
     return n
 
 
-def _macro_call(c: nodes.Node, ti: Any) -> "tuple[nodes.Macro, nodes.Call] | None":
-    """the macro of the same template that the output expression calls (possibly through filters: `{{ _m(...) | indent(4) }}`)"""
-    while isinstance(c, nodes.Filter) and c.node is not None:
-        c = c.node
-    if isinstance(c, nodes.Call) and isinstance(c.node, nodes.Name) and c.node.name in ti.macros:
-        return ti.macros[c.node.name], c
+# ---- conditions ---------------------------------------------------------------------------------------------------------------
+# tplq's truth tables read and / or / not over opaque atoms.  The same decision can be spelt with a constant (a macro called with
+# `true`, one round of a loop over `(false, true)`), as a comparison of two truth values (`(a or b) == flag`), as a conditional
+# expression or as `x == none`: these are taken apart as well, so that the atoms stay the questions asked of the *property*.
+
+BOOL_ATTRS: set[str] = set()   # attributes of property objects that every property class which declares them annotates `bool`
+
+
+def _bool_attrs(ix: Any) -> set[str]:
+    anns: dict[str, list[Any]] = {}
+    for c in [ix.cls("PropertyProtocol")] + ix.property_classes():
+        for name, ann in c.fields.items():
+            anns.setdefault(name, []).append(ann)
+    return {name for name, xs in anns.items() if all(a is not None and norm(a) in ("bool", "ClassVar[bool]") for a in xs)}
+
+
+def _strict_bool(n: Any) -> bool:
+    """the expression evaluates to True or False themselves (not merely to something truthy or falsy)"""
+    if isinstance(n, nodes.Const):
+        return isinstance(n.value, bool)
+    if isinstance(n, nodes.Getattr):
+        return n.attr in BOOL_ATTRS
+    if isinstance(n, (nodes.Not, nodes.Test, nodes.Compare)):
+        return True
+    if isinstance(n, (nodes.And, nodes.Or)):
+        return _strict_bool(n.left) and _strict_bool(n.right)
+    if isinstance(n, nodes.CondExpr):
+        return n.expr2 is not None and _strict_bool(n.expr1) and _strict_bool(n.expr2)
+    return False
+
+
+def _is_none(n: Any) -> bool:
+    return isinstance(n, nodes.Const) and n.value is None
+
+
+def _eqne(t: Any) -> "tuple[Any, Any, bool] | None":
+    """(left, right, is-equality) of a comparison `a == b` / `a != b`"""
+    if isinstance(t, nodes.Compare) and len(t.ops) == 1 and t.ops[0].op in ("eq", "ne"):
+        return t.expr, t.ops[0].expr, t.ops[0].op == "eq"
     return None
 
 
+def _atoms(t: Any) -> list[str]:
+    out: list[str] = []
+
+    def add(xs: list[str]) -> None:
+        for a in xs:
+            if a not in out:
+                out.append(a)
+
+    if isinstance(t, (nodes.And, nodes.Or)):
+        add(_atoms(t.left))
+        add(_atoms(t.right))
+    elif isinstance(t, nodes.Not):
+        add(_atoms(t.node))
+    elif isinstance(t, nodes.Const):
+        pass
+    elif isinstance(t, nodes.CondExpr) and t.expr2 is not None:
+        add(_atoms(t.test))
+        add(_atoms(t.expr1))
+        add(_atoms(t.expr2))
+    elif _eqne(t) is not None and _strict_bool(_eqne(t)[0]) and _strict_bool(_eqne(t)[1]):
+        add(_atoms(_eqne(t)[0]))
+        add(_atoms(_eqne(t)[1]))
+    elif _eqne(t) is not None and (_is_none(_eqne(t)[0]) != _is_none(_eqne(t)[1])):
+        l, r, _ = _eqne(t)
+        add([f"{expr_text(l if _is_none(r) else r)} is none"])
+    elif isinstance(t, nodes.Test) and t.name in ("true", "false") and not t.args and _strict_bool(t.node):
+        add(_atoms(t.node))
+    else:
+        add([expr_text(t)])
+    return out
+
+
+def _eval(t: Any, env: dict[str, bool]) -> bool:
+    if isinstance(t, nodes.And):
+        return _eval(t.left, env) and _eval(t.right, env)
+    if isinstance(t, nodes.Or):
+        return _eval(t.left, env) or _eval(t.right, env)
+    if isinstance(t, nodes.Not):
+        return not _eval(t.node, env)
+    if isinstance(t, nodes.Const):
+        return bool(t.value)
+    if isinstance(t, nodes.CondExpr) and t.expr2 is not None:
+        return _eval(t.expr1 if _eval(t.test, env) else t.expr2, env)
+    eq = _eqne(t)
+    if eq is not None and _strict_bool(eq[0]) and _strict_bool(eq[1]):
+        return (_eval(eq[0], env) == _eval(eq[1], env)) == eq[2]
+    if eq is not None and (_is_none(eq[0]) != _is_none(eq[1])):
+        return env[f"{expr_text(eq[0] if _is_none(eq[1]) else eq[1])} is none"] == eq[2]
+    if isinstance(t, nodes.Test) and t.name in ("true", "false") and not t.args and _strict_bool(t.node):
+        return _eval(t.node, env) == (t.name == "true")
+    return env[expr_text(t)]
+
+
+def _guard_atoms(fr: tplq.Frag) -> list[str]:
+    out: list[str] = []
+    for gn in fr.guard_nodes:
+        for a in _atoms(gn):
+            if a not in out:
+                out.append(a)
+    return out
+
+
+def _guard_holds(fr: tplq.Frag, env: dict[str, bool]) -> bool:
+    """is the fragment emitted under the assignment env of its guard atoms?"""
+    return all(_eval(gn, env) == pol for gn, (_, pol) in zip(fr.guard_nodes, fr.guards))
+
+
+def _implies(fr: tplq.Frag, atom: str, value: bool) -> bool:
+    """whenever the fragment is emitted, `atom` has truth value `value` (truth table over the guard atoms)"""
+    names = _guard_atoms(fr)
+    if atom not in names:
+        return False
+    envs = [e for e in tplq.assignments(names) if _guard_holds(fr, e)]
+    return bool(envs) and all(e[atom] == value for e in envs)
+
+
 def _frag(kind: str, text: str, line: int, guards: tuple, gnodes: tuple, loops: tuple, node: Any, expr: Any = None,
-          target: "str | None" = None) -> tplq.Frag:
-    """a tplq.Frag that also carries the expression in the caller's terms (`expr`) and, for a `set`, the canonical name of the
-    variable it defines (`target`)"""
+          target: "str | None" = None, insts: tuple = ()) -> tplq.Frag:
+    """a tplq.Frag that also carries the expression in the caller's terms (`expr`), for a `set` the canonical name of the
+    variable it defines (`target`), and one token per enclosing loop that tells two executions of the same loop apart (`insts`)"""
     fr = tplq.Frag(kind, text, line, guards, gnodes, loops, node)
     fr.expr = expr          # type: ignore[attr-defined]
     fr.target = target      # type: ignore[attr-defined]
+    fr.insts = insts        # type: ignore[attr-defined]
     return fr
 
 
@@ -540,10 +791,10 @@ class _TplEval:
         out: list[str] = []
         for n in [e, *e.find_all((nodes.CondExpr, nodes.Name))]:
             if isinstance(n, nodes.CondExpr):
-                out += tplq.atoms(n.test)
+                out += _atoms(n.test)
             elif isinstance(n, nodes.Name) and depth < self.DEPTH:
                 for i, d in self._reaching(n.name, at):
-                    out += tplq.guard_atoms(d) + self.atoms(d.expr, i, depth + 1)  # type: ignore[attr-defined]
+                    out += _guard_atoms(d) + self.atoms(d.expr, i, depth + 1)  # type: ignore[attr-defined]
         return list(dict.fromkeys(out))
 
     def consts(self, e: "nodes.Node | None", env: dict[str, bool], at: int, depth: int = 0) -> list[str]:
@@ -555,9 +806,9 @@ class _TplEval:
         if isinstance(e, nodes.TemplateData):
             return [e.data]
         if isinstance(e, nodes.CondExpr):
-            return self.consts(e.expr1 if tplq.evaluate(e.test, env) else e.expr2, env, at, depth)
+            return self.consts(e.expr1 if _eval(e.test, env) else e.expr2, env, at, depth)
         if isinstance(e, nodes.Name):
-            live = [(i, d) for i, d in self._reaching(e.name, at) if tplq.guard_holds(d, env)] if depth < self.DEPTH else []
+            live = [(i, d) for i, d in self._reaching(e.name, at) if _guard_holds(d, env)] if depth < self.DEPTH else []
             if live:
                 return self.consts(live[-1][1].expr, env, live[-1][0], depth + 1)  # type: ignore[attr-defined]
             return [HOLE]
@@ -576,75 +827,308 @@ class _TplEval:
         return " <- ".join(out)
 
 
-def _frags(body: list[nodes.Node], ti: Any, guards: tuple = (), gnodes: tuple = (), loops: tuple = (), binding: "dict[str, Any] | None" = None,
-           stack: tuple = (), tests: "list[nodes.Node] | None" = None, sets: bool = False) -> Iterator[tplq.Frag]:
-    """tplq.frags, plus: the filter of a `for ... if cond` loop is a guard of the loop body (it is the same decision as an `if`
-    around the body); a call of a macro of the same template is replaced by the fragments of that macro, its conditions
-    expressed in the caller's terms (parameters replaced by the arguments), so that extracting a shared body into a private macro
-    changes nothing; with sets=True `{% set x = e %}` statements are reported as fragments of kind "set".  `tests` collects
-    every condition met on the way."""
-    b = binding or {}
+UNROLL = 8
 
-    def cond(t: nodes.Node) -> nodes.Node:
+
+def _frags(body: list[nodes.Node], ti: Any, jx: Any = None, tests: "list[nodes.Node] | None" = None, sets: bool = False) -> Iterator[tplq.Frag]:
+    """tplq.frags in the order of execution, indifferent to how the template is cut into pieces:
+
+    * the filter of a `for ... if cond` loop and a `selectattr` / `rejectattr` chain on the iterable are guards of the loop body
+      (the same decision as an `if` around the body);
+    * a call of a macro - of the same template, or imported by `{% from "T" import m %}` / `{% import "T" as ns %}` with a
+      constant T - is replaced by the fragments of that macro, its conditions expressed in the caller's terms (parameters
+      replaced by the arguments); `{% include "T" %}` likewise.  Extracting a shared body into a macro, here or in another file,
+      changes nothing;
+    * a loop over a literal sequence (`for flag in (false, true)`) is the sequence of its rounds, the loop variable replaced by
+      the element;
+    * a loop variable reads `<iterable>[*]` in the caller's terms.
+
+    With sets=True `{% set x = e %}` statements are reported as fragments of kind "set".  `tests` collects every condition met on
+    the way."""
+    return _Walk(jx, tests, sets).walk(body, ti, (), (), (), (), {}, ())
+
+
+class _Walk:
+    def __init__(self, jx: Any, tests: "list[nodes.Node] | None", sets: bool):
+        self.jx = jx
+        self.tests = tests
+        self.sets = sets
+        self._imports: dict[str, tuple[dict, dict]] = {}
+
+    # -- which macro does a call mean -----------------------------------------------------------------------------------------
+    def imports(self, ti: Any) -> tuple[dict, dict]:
+        """({name: (template, macro)}, {alias: template}) of the imports of ti whose template is a constant; a name that is also
+        imported from a computed template means nothing here"""
+        if ti.name not in self._imports:
+            names: dict[str, Any] = {}
+            spaces: dict[str, Any] = {}
+            for n in ti.tree.find_all((nodes.FromImport, nodes.Import)):
+                t = n.template.value if isinstance(n.template, nodes.Const) and isinstance(n.template.value, str) else None
+                if isinstance(n, nodes.Import):
+                    spaces[n.target] = t if spaces.get(n.target, t) == t else None
+                else:
+                    for x in n.names:
+                        orig, alias = x if isinstance(x, tuple) else (x, x)
+                        v = (t, orig) if t is not None else None
+                        names[alias] = v if names.get(alias, v) == v else None
+            self._imports[ti.name] = ({k: v for k, v in names.items() if v}, {k: v for k, v in spaces.items() if v})
+        return self._imports[ti.name]
+
+    def macro_of(self, c: nodes.Node, ti: Any, b: dict[str, Any]) -> "tuple[nodes.Macro, nodes.Call, Any] | None":
+        """the macro that the output expression calls (possibly through filters: `{{ _m(...) | indent(4) }}`) and its template"""
+        while isinstance(c, nodes.Filter) and c.node is not None:
+            c = c.node
+        if not isinstance(c, nodes.Call):
+            return None
+        f = c.node
+        if isinstance(f, nodes.Name) and f.name not in b:
+            if f.name in ti.macros:
+                return ti.macros[f.name], c, ti
+            tn, mn = self.imports(ti)[0].get(f.name, (None, None))
+        elif isinstance(f, nodes.Getattr) and isinstance(f.node, nodes.Name) and f.node.name not in b:
+            tn, mn = self.imports(ti)[1].get(f.node.name), f.attr
+        else:
+            return None
+        t2 = self.jx.templates.get(tn) if self.jx is not None and tn else None
+        if t2 is not None and mn in t2.macros:
+            return t2.macros[mn], c, t2
+        return None
+
+    # -- the walk -----------------------------------------------------------------------------------------------------------------
+    def cond(self, t: nodes.Node, b: dict[str, Any]) -> nodes.Node:
         t2 = _clone(t, b) if b else t
-        if tests is not None:
-            tests.append(t2)
+        if self.tests is not None:
+            self.tests.append(t2)
         return t2
 
-    for n in body:
-        if isinstance(n, nodes.Output):
-            for c in n.nodes:
-                if isinstance(c, nodes.TemplateData):
-                    yield _frag("data", c.data, c.lineno, guards, gnodes, loops, c)
-                    continue
-                mc = _macro_call(c, ti)
-                if mc is not None and mc[0].name not in stack and len(stack) < 4:
-                    macro, call = mc
-                    b2: dict[str, Any] = {}
-                    params = [a.name for a in macro.args]
-                    for a, d in zip(macro.args[len(macro.args) - len(macro.defaults):], macro.defaults):
-                        b2[a.name] = d
-                    for i, a in enumerate(call.args):
-                        if i < len(params):
-                            b2[params[i]] = _clone(a, b) if b else a
-                    for kw in call.kwargs:
-                        b2[kw.key] = _clone(kw.value, b) if b else kw.value
-                    yield from _frags(macro.body, ti, guards, gnodes, loops, b2, stack + (macro.name,), tests, sets)
-                    continue
-                c2 = _clone(c, b) if b else c
-                yield _frag("expr", expr_text(c2), c.lineno, guards, gnodes, loops, c, expr=c2)
-        elif isinstance(n, nodes.If):
-            t0 = cond(n.test)
-            t = expr_text(t0)
-            yield from _frags(n.body, ti, guards + ((t, True),), gnodes + (t0,), loops, b, stack, tests, sets)
-            neg = guards + ((t, False),)
-            gn = gnodes + (t0,)
-            for el in n.elif_:
-                t1 = cond(el.test)
-                t2 = expr_text(t1)
-                yield from _frags(el.body, ti, neg + ((t2, True),), gn + (t1,), loops, b, stack, tests, sets)
-                neg = neg + ((t2, False),)
-                gn = gn + (t1,)
-            if n.else_:
-                yield from _frags(n.else_, ti, neg, gn, loops, b, stack, tests, sets)
-        elif isinstance(n, nodes.For):
-            it = expr_text(_clone(n.iter, b) if b else n.iter)
-            g2, gn2 = guards, gnodes
-            if n.test is not None:
-                t0 = cond(n.test)
-                g2, gn2 = guards + ((expr_text(t0), True),), gnodes + (t0,)
-            yield from _frags(n.body, ti, g2, gn2, loops + (it,), b, stack, tests, sets)
-            if n.else_:
-                yield from _frags(n.else_, ti, guards, gnodes, loops, b, stack, tests, sets)
-        elif isinstance(n, nodes.Assign):
-            if sets:
-                v2 = _clone(n.node, b) if b else n.node
-                yield _frag("set", expr_text(v2), n.lineno, guards, gnodes, loops, n, expr=v2,
-                            target=n.target.name if isinstance(n.target, nodes.Name) else None)
-        elif isinstance(n, (nodes.With, nodes.Scope, nodes.CallBlock, nodes.FilterBlock, nodes.AssignBlock)):
-            yield from _frags(getattr(n, "body", []), ti, guards, gnodes, loops, b, stack, tests, sets)
-        elif isinstance(n, nodes.Macro):
-            continue
+    def walk(self, body: list[nodes.Node], ti: Any, guards: tuple, gnodes: tuple, loops: tuple, insts: tuple, b: dict[str, Any],
+             stack: tuple) -> Iterator[tplq.Frag]:
+        for n in body:
+            if isinstance(n, nodes.Output):
+                for c in n.nodes:
+                    if isinstance(c, nodes.TemplateData):
+                        yield _frag("data", c.data, c.lineno, guards, gnodes, loops, c, insts=insts)
+                        continue
+                    mc = self.macro_of(c, ti, b)
+                    if mc is not None and (mc[2].name, mc[0].name) not in stack and len(stack) < 4:
+                        macro, call, t2 = mc
+                        b2: dict[str, Any] = {}
+                        params = [a.name for a in macro.args]
+                        for a, d in zip(macro.args[len(macro.args) - len(macro.defaults):], macro.defaults):
+                            b2[a.name] = d
+                        for i, a in enumerate(call.args):
+                            if i < len(params):
+                                b2[params[i]] = _clone(a, b) if b else a
+                        for kw in call.kwargs:
+                            b2[kw.key] = _clone(kw.value, b) if b else kw.value
+                        yield from self.walk(macro.body, t2, guards, gnodes, loops, insts, b2, stack + ((t2.name, macro.name),))
+                        continue
+                    c2 = _clone(c, b) if b else c
+                    yield _frag("expr", expr_text(c2), c.lineno, guards, gnodes, loops, c, expr=c2, insts=insts)
+            elif isinstance(n, nodes.If):
+                t0 = self.cond(n.test, b)
+                t = expr_text(t0)
+                yield from self.walk(n.body, ti, guards + ((t, True),), gnodes + (t0,), loops, insts, b, stack)
+                neg = guards + ((t, False),)
+                gn = gnodes + (t0,)
+                for el in n.elif_:
+                    t1 = self.cond(el.test, b)
+                    t2_ = expr_text(t1)
+                    yield from self.walk(el.body, ti, neg + ((t2_, True),), gn + (t1,), loops, insts, b, stack)
+                    neg = neg + ((t2_, False),)
+                    gn = gn + (t1,)
+                if n.else_:
+                    yield from self.walk(n.else_, ti, neg, gn, loops, insts, b, stack)
+            elif isinstance(n, nodes.For):
+                yield from self.loop(n, ti, guards, gnodes, loops, insts, b, stack)
+            elif isinstance(n, nodes.Assign):
+                if self.sets:
+                    v2 = _clone(n.node, b) if b else n.node
+                    yield _frag("set", expr_text(v2), n.lineno, guards, gnodes, loops, n, expr=v2,
+                                target=n.target.name if isinstance(n.target, nodes.Name) else None, insts=insts)
+            elif isinstance(n, nodes.Include):
+                t2 = self.jx.templates.get(n.template.value) if self.jx is not None and isinstance(n.template, nodes.Const) else None
+                if t2 is not None and ("include", t2.name) not in stack and len(stack) < 4:
+                    yield from self.walk(t2.tree.body, t2, guards, gnodes, loops, insts, b, stack + (("include", t2.name),))
+            elif isinstance(n, (nodes.With, nodes.Scope, nodes.CallBlock, nodes.FilterBlock, nodes.AssignBlock)):
+                yield from self.walk(getattr(n, "body", []), ti, guards, gnodes, loops, insts, b, stack)
+            elif isinstance(n, nodes.Macro):
+                continue
+
+    def loop(self, n: nodes.For, ti: Any, guards: tuple, gnodes: tuple, loops: tuple, insts: tuple, b: dict[str, Any],
+             stack: tuple) -> Iterator[tplq.Frag]:
+        it_node = _clone(n.iter, b) if b else n.iter
+        targets = [n.target.name] if isinstance(n.target, nodes.Name) else [t.name for t in n.target.find_all(nodes.Name)]
+        # a literal sequence: one round per element, in order
+        if isinstance(it_node, (nodes.Tuple, nodes.List)) and len(it_node.items) <= UNROLL:
+            rounds: "list[dict[str, Any]] | None" = []
+            for item in it_node.items:
+                if isinstance(n.target, nodes.Name):
+                    rounds.append({**b, n.target.name: item})
+                elif isinstance(item, (nodes.Tuple, nodes.List)) and len(item.items) == len(targets):
+                    rounds.append({**b, **dict(zip(targets, item.items))})
+                else:
+                    rounds = None
+                    break
+            if rounds is not None:
+                for b2 in rounds:
+                    g2, gn2 = guards, gnodes
+                    if n.test is not None:
+                        t0 = self.cond(n.test, b2)
+                        g2, gn2 = guards + ((expr_text(t0), True),), gnodes + (t0,)
+                    yield from self.walk(n.body, ti, g2, gn2, loops, insts, b2, stack)
+                if not rounds and n.else_:
+                    yield from self.walk(n.else_, ti, guards, gnodes, loops, insts, b, stack)
+                return
+        base, picks = _peel_selection(it_node)
+        it = expr_text(base)
+        b2 = {k: v for k, v in b.items() if k not in targets}
+        g2, gn2 = guards, gnodes
+        if b or picks:
+            # the loop variable in the caller's terms
+            var = f"{it}[*]" + "'" * loops.count(it)
+            if isinstance(n.target, nodes.Name):
+                b2[n.target.name] = nodes.Name(var, "load")
+            else:
+                for i, t in enumerate(targets):
+                    b2[t] = nodes.Name(f"{var}.{i}", "load")
+            for attr, test, args, negate in picks:
+                g: nodes.Node = nodes.Name(var, "load")
+                for part in attr.split("."):
+                    g = nodes.Getattr(g, part, "load")
+                if test is not None:
+                    g = nodes.Test(g, test, list(args), [], None, None)
+                if self.tests is not None:
+                    self.tests.append(g)
+                g2, gn2 = g2 + ((expr_text(g), not negate),), gn2 + (g,)
+        if n.test is not None:
+            t0 = self.cond(n.test, b2)
+            g2, gn2 = g2 + ((expr_text(t0), True),), gn2 + (t0,)
+        yield from self.walk(n.body, ti, g2, gn2, loops + (it,), insts + (object(),), b2, stack)
+        if n.else_:
+            yield from self.walk(n.else_, ti, guards, gnodes, loops, insts, b, stack)
+
+
+def _peel_selection(it: nodes.Node) -> "tuple[nodes.Node, list[tuple[str, str | None, list, bool]]]":
+    """`xs | selectattr("a") | rejectattr("b", "none")` iterates over the elements of xs (in their order) for which `x.a` holds and
+    `x.b is none` does not: (xs, [(attribute, test or None, test arguments, negated)])"""
+    picks: list[tuple[str, "str | None", list, bool]] = []
+    n = it
+    while isinstance(n, nodes.Filter) and n.node is not None and not n.kwargs and n.dyn_args is None and n.dyn_kwargs is None:
+        if n.name in ("selectattr", "rejectattr") and n.args and all(isinstance(a, nodes.Const) for a in n.args[:2]) \
+                and all(isinstance(a.value, str) for a in n.args[:2]):
+            picks.append((n.args[0].value, n.args[1].value if len(n.args) > 1 else None, n.args[2:], n.name == "rejectattr"))
+            n = n.node
+        elif n.name == "list" and not n.args and isinstance(n.node, nodes.Filter):
+            n = n.node
+        else:
+            break
+    if not picks:
+        return it, []
+    return n, picks[::-1]
+
+
+class _Forwarding:
+    """Where a function hands on the requiredness of the declaration it was given.  A *source* is the parameter `required` or
+    `<parameter>.required` (not self / cls), or a local that is only ever bound to a source.  It is handed on by a call that
+    receives it as keyword `required=`, as the positional argument of a parameter called `required`, by a `dict(required=...)` /
+    `{"required": ...}` (keyword dictionaries), or - for `<parameter>.required` - by passing the parameter itself to a function
+    that forwards its `.required`."""
+
+    def __init__(self, ix: Any):
+        self.ix = ix
+        self.by_name: dict[str, list[Any]] = {}
+        for g in ix.all_functions:
+            self.by_name.setdefault(g.name, []).append(g)
+        self._params: dict[str, list[str]] = {}
+        self._locals: dict[str, Locals] = {}
+        self._src: dict[str, set[str]] = {}
+        # parameters whose `.required` a function forwards, directly; then through one and two levels of delegation
+        self.decl_params: dict[str, set[str]] = {g.qual: set() for g in ix.all_functions}
+        for _ in range(3):
+            for g in ix.all_functions:
+                self._src.pop(g.qual, None)
+                for n in ast.walk(g.node):
+                    if isinstance(n, ast.Call):
+                        self.decl_params[g.qual] |= {s_.split(".")[0] for s_ in self._forwarded(g, n) if s_.endswith(".required")}
+
+    def params(self, f: Any) -> list[str]:
+        if f.qual not in self._params:
+            self._params[f.qual] = [a.arg for a in f.params]
+        return self._params[f.qual]
+
+    def source(self, f: Any, e: ast.AST, depth: int = 0) -> "str | None":
+        ps = self.params(f)
+        if isinstance(e, ast.Name) and e.id == "required" and "required" in ps:
+            return "required"
+        if isinstance(e, ast.Attribute) and e.attr == "required" and isinstance(e.value, ast.Name) and e.value.id in ps \
+                and e.value.id not in ("self", "cls"):
+            return f"{e.value.id}.required"
+        if isinstance(e, ast.Name) and e.id not in ps and depth < 2:
+            if f.qual not in self._locals:
+                self._locals[f.qual] = Locals(f.node)
+            ds = self._locals[f.qual].defs.get(e.id, [])
+            got = {self.source(f, v, depth + 1) if k == "assign" and v is not None else None for k, _, v in ds}
+            if len(got) == 1 and None not in got:
+                return next(iter(got))
+        return None
+
+    def _callee_params(self, c: ast.Call) -> list[tuple[Any, list[str]]]:
+        """parameter lists (without self / cls) of the functions of the package the call may mean, by its last name; for a class,
+        its fields"""
+        last = call_name(c).rsplit(".", 1)[-1]
+        out = []
+        for g in self.by_name.get(last, []):
+            ps = self.params(g)
+            out.append((g, ps[1:] if ps[:1] in (["self"], ["cls"]) else ps))
+        for k in self.ix.classes.values():
+            if k.name == last:
+                out.append((None, list(self.ix.all_fields(k))))
+        return out
+
+    def _forwarded(self, f: Any, c: ast.Call) -> set[str]:
+        """the sources that call c receives"""
+        out: set[str] = set()
+        for kw in c.keywords:
+            if kw.arg == "required":
+                s_ = self.source(f, kw.value)
+                if s_:
+                    out.add(s_)
+        callees = self._callee_params(c)
+        for i, a in enumerate(c.args):
+            s_ = self.source(f, a)
+            if s_ and any(i < len(ps) and ps[i] == "required" for _, ps in callees):
+                out.add(s_)
+        # the declaration itself, handed to a function that forwards its `.required`
+        ps_f = self.params(f)
+        for g, ps in callees:
+            if g is None:
+                continue
+            passed = [(ps[i], a) for i, a in enumerate(c.args) if i < len(ps)] + [(kw.arg, kw.value) for kw in c.keywords if kw.arg]
+            for pn, a in passed:
+                if pn in self.decl_params.get(g.qual, ()) and isinstance(a, ast.Name) and a.id in ps_f and a.id not in ("self", "cls"):
+                    out.add(f"{a.id}.required")
+        return out
+
+    def in_expr(self, f: Any, e: ast.AST) -> set[str]:
+        out: set[str] = set()
+        for n in ast.walk(e):
+            if isinstance(n, ast.Call):
+                out |= self._forwarded(f, n)
+            elif isinstance(n, ast.Dict):
+                for k, v in zip(n.keys, n.values):
+                    if isinstance(k, ast.Constant) and k.value == "required" and self.source(f, v):
+                        out.add(self.source(f, v))
+        return out
+
+    def in_stmt(self, f: Any, st: ast.stmt) -> bool:
+        return any(self.in_expr(f, e) for e in own_exprs(st))
+
+    def sources(self, f: Any) -> set[str]:
+        """the sources f hands on somewhere (empty: f is not a forwarder)"""
+        if f.qual not in self._src:
+            self._src[f.qual] = {s_ for st in ast.walk(f.node) if isinstance(st, ast.stmt) for e in own_exprs(st) for s_ in self.in_expr(f, e)}
+        return self._src[f.qual]
 
 
 class _Mentions:
